@@ -39,6 +39,23 @@ theorem SInv.rollback {cfg : Cfg} (G : Good cfg) {s : State n} (h : SInv cfg s) 
 theorem SInv.restart {cfg : Cfg} (G : Good cfg) {s : State n} (h : SInv cfg s) : SInv cfg (restart cfg s) :=
   h.reload G (Mem.fresh cfg) rfl rfl
 
+/-- **Any failure point inside `updateState`**: whichever of its store writes fails (stage 1: IBLT leaf, stage 2: XOR
+    leaf), the rollback handler brings the in-memory state back to what the — unchanged — disk implies -/
+theorem SInv.rollback_partial {cfg : Cfg} (G : Good cfg) {s : State n} (h : SInv cfg s) (tx : Tx) (stage : Nat) :
+    SInv cfg (Nuts.C08.rollback cfg (partialUpdate s tx stage)) ∧
+    (Nuts.C08.rollback cfg (partialUpdate s tx stage)).disk = s.disk := by
+  have hx := h.x.inv xor_lawful G.pos
+  have hi := h.i.inv (iblt_lawful n) G.pos
+  refine ⟨?_, rfl⟩
+  apply h.reload G (partialUpdate s tx stage).mem
+  · show (if stage ≥ 2 then (s.mem.xorTree.insert xorOps tx.ref tx.clock).resetUpdates else s.mem.xorTree).leafSize = _
+    split
+    · show (s.mem.xorTree.insert xorOps tx.ref tx.clock).leafSize = _
+      rw [(insert_spec xor_lawful _ hx.1 tx.ref tx.clock).2.1, hx.2.1]
+    · exact hx.2.1
+  · show (s.mem.ibltTree.insert (ibltOps n) tx.ikey tx.clock).leafSize = _
+    rw [(insert_spec (iblt_lawful n) _ hi.1 tx.ikey tx.clock).2.1, hi.2.1]
+
 theorem refClocks_snoc (S : List Tx) (tx : Tx) : refClocks (S ++ [tx]) = refClocks S ++ [(tx.ref, tx.clock)] := by
   simp [refClocks]
 
@@ -100,6 +117,10 @@ theorem SInv.add {cfg : Cfg} (G : Good cfg) {s : State n} (h : SInv cfg s) (tx :
       · simp only [hpay, if_true]
         exact ⟨h.rollback G, fun _ => rfl, fun e => by cases e⟩
       · simp only [hpay, Bool.false_eq_true, if_false]
+        by_cases hp0 : putFailsIn opt.putFails 0 (if opt.payload.isSome then 1 else 0) = true
+        · simp only [hp0, if_true]
+          exact ⟨h.rollback G, fun _ => rfl, fun e => by cases e⟩
+        simp only [hp0, Bool.false_eq_true, if_false]
         by_cases hsp : (opt.payload.isSome && opt.savePayloadEventFails) = true
         · simp only [hsp, if_true]
           exact ⟨h.rollback G, fun _ => rfl, fun e => by cases e⟩
@@ -109,10 +130,24 @@ theorem SInv.add {cfg : Cfg} (G : Good cfg) {s : State n} (h : SInv cfg s) (tx :
           exact ⟨h.rollback G, fun _ => rfl, fun e => by cases e⟩
         · rw [hd]
           simp only []
+          generalize hng : (if opt.payload.isSome then 1 else 0) + 4 +
+            (if (decide (tx.clock > s.disk.lcHigh) || tx.clock == 0) = true then 1 else 0) = ng
+          by_cases hp1 : putFailsIn opt.putFails (if opt.payload.isSome then 1 else 0) ng = true
+          · simp only [hp1, if_true]
+            exact ⟨h.rollback G, fun _ => rfl, fun e => by cases e⟩
+          simp only [hp1, Bool.false_eq_true, if_false]
           by_cases hst : opt.saveTxEventFails = true
           · simp only [hst, if_true]
             exact ⟨h.rollback G, fun _ => rfl, fun e => by cases e⟩
           simp only [hst, Bool.false_eq_true, if_false]
+          by_cases hp2 : putFailsIn opt.putFails ng (ng + 1) = true
+          · simp only [hp2, if_true]
+            exact ⟨(h.rollback_partial G tx 1).1, fun _ => rfl, fun e => by cases e⟩
+          simp only [hp2, Bool.false_eq_true, if_false]
+          by_cases hp3 : putFailsIn opt.putFails (ng + 1) (ng + 2) = true
+          · simp only [hp3, if_true]
+            exact ⟨(h.rollback_partial G tx 2).1, fun _ => rfl, fun e => by cases e⟩
+          simp only [hp3, Bool.false_eq_true, if_false]
           have c := h.commit G hg htx hx hi hlc hle hempty
           by_cases hf : opt.commitFails = true
           · simp only [hf, if_true]
